@@ -32,8 +32,27 @@ static WIDE_TYPES: std::sync::OnceLock<Vec<&'static str>> = std::sync::OnceLock:
 static WIDE_FIELDS: std::sync::OnceLock<Vec<&'static str>> = std::sync::OnceLock::new();
 static WIDE_SYMBOLS: std::sync::OnceLock<Vec<&'static str>> = std::sync::OnceLock::new();
 
+/// Names outside ASCII (the specification's grammar for names is ASCII-only, but the crate — like most implementations —
+/// takes what the JSON says): a Thai word with combining marks, decomposed accents, a no-break space, zero-width joiners,
+/// Cyrillic. Whatever renders, escapes, compares or fingerprints names meets them at ids `EXOTIC_FIRST..+4`.
+pub const EXOTIC_FIRST: usize = 636;
+const EXOTIC_FIELDS: [&str; 4] = ["\u{e0a}\u{e37}\u{e48}\u{e2d}", "e\u{301}te\u{301}", "Id\u{a0}2", "na\u{200c}me"];
+const EXOTIC_TYPES: [&str; 4] = ["z.Nome\u{301}", "\u{fc}.\u{422}\u{438}\u{43f}", "w.\u{e0a}\u{e37}\u{e48}\u{e2d}", "a.N\u{200d}x"];
+pub fn has_exotic_names(ty: &Ty) -> bool {
+	match ty {
+		Ty::Array(t) | Ty::Map(t) => has_exotic_names(t),
+		Ty::Union(ts) => ts.iter().any(has_exotic_names),
+		Ty::Record { name, fields } => *name as usize >= EXOTIC_FIRST || fields.iter().any(|(f, t)| *f as usize >= EXOTIC_FIRST || has_exotic_names(t)),
+		Ty::Enum { name, .. } | Ty::Fixed { name, .. } | Ty::DecimalFixed { name, .. } | Ty::Duration { name } | Ty::Ref(name) => *name as usize >= EXOTIC_FIRST,
+		_ => false,
+	}
+}
+
 pub fn type_name(i: u16) -> &'static str {
 	let i = i as usize;
+	if i >= EXOTIC_FIRST && i < EXOTIC_FIRST + 4 {
+		return EXOTIC_TYPES[i - EXOTIC_FIRST];
+	}
 	if i < TYPE_NAMES.len() {
 		TYPE_NAMES[i]
 	} else {
@@ -42,6 +61,9 @@ pub fn type_name(i: u16) -> &'static str {
 }
 pub fn field_name(i: u16) -> &'static str {
 	let i = i as usize;
+	if i >= EXOTIC_FIRST && i < EXOTIC_FIRST + 4 {
+		return EXOTIC_FIELDS[i - EXOTIC_FIRST];
+	}
 	if i < FIELD_NAMES.len() {
 		FIELD_NAMES[i]
 	} else {
@@ -595,6 +617,7 @@ struct GenCtx<'a> {
 	rng: &'a mut Rng,
 	cfg: GenCfg,
 	next_name: u16,
+	exotic_next: u16,
 	/// records currently being defined (their fields may reference them behind a guard)
 	open: Vec<u16>,
 	/// completely defined named types that may be referenced
@@ -609,6 +632,7 @@ pub fn gen_schema(rng: &mut Rng, cfg: GenCfg) -> Ty {
 		rng,
 		cfg,
 		next_name: 0,
+		exotic_next: 0,
 		open: vec![],
 		closed: vec![],
 		decimal_names: vec![],
@@ -638,6 +662,10 @@ enum KindKey {
 
 impl<'a> GenCtx<'a> {
 	fn fresh_name(&mut self) -> Option<u16> {
+		if self.exotic_next < 4 && self.rng.chance(1, 60) {
+			self.exotic_next += 1;
+			return Some((EXOTIC_FIRST as u16) + self.exotic_next - 1);
+		}
 		if (self.next_name as usize) < TYPE_NAMES.len() {
 			self.next_name += 1;
 			Some(self.next_name - 1)
@@ -759,6 +787,10 @@ impl<'a> GenCtx<'a> {
 		for i in 0..n_fields {
 			let t = self.gen(depth - 1, false, false);
 			fields.push((field_ids[i], t));
+		}
+		if n_fields > 0 && self.rng.chance(1, 40) {
+			let k = self.rng.usize(n_fields);
+			fields[k].0 = (EXOTIC_FIRST + self.rng.usize(4)) as u16;
 		}
 		self.open.pop();
 		self.closed.push(name);
